@@ -316,6 +316,9 @@ Why(C, X, e) ==
       fsuffix == IF UnderForever(n) THEN "-under-forever" ELSE ""
       \* the critical failure came out of a critical nested scheduler (C10: it propagates)
       nsuffix == IF \E k \in Kids(C, p) : IsSched(C, k) /\ C.crit[k] /\ X.st[k] = "exc" THEN "-by-nested" ELSE ""
+      \* the run of n ends (abnormally) while forever jobs of its own are alive: they outlive it (C09)
+      lsuffix == IF n >= 1 /\ n <= C.n /\ IsSched(C, n) /\ (\E k \in Kids(C, n) : C.forever[k] /\ Live(X, k))
+                 THEN "-leaving-forever-jobs" ELSE ""
       byCause == (CASE pcause = "critical" -> "parent-aborted-critical" \o nsuffix
                     [] pcause = "timeout" -> "parent-aborted-timeout"
                     [] pcause = "success" -> "parent-aborted-success"
@@ -373,14 +376,14 @@ Why(C, X, e) ==
              ELSE "sshut-ret-other")
        [] e.k = "sshut-cancel" -> "sshut-cancel-unexpected"
        [] e.k = "run-end" ->
-            (IF ~Over(X, n) THEN "run-end-early"
+            (IF ~Over(X, n) THEN "run-end-early" \o (IF \E j \in Nodes(C) : AdmitG(C, X, j) THEN "-eligible-waiting" ELSE "")
              ELSE IF X.st[n] = "exc" THEN "verdict-returned-instead-of-raise" \o Claim(e, n) \o "-spec-" \o X.cause[n]
              ELSE IF X.res[n] # <<e.v, 0>> THEN "verdict-value" \o Claim(e, n) \o "-spec-" \o X.cause[n]
              ELSE "run-end-other")
        [] e.k = "run-exc" ->
-            (IF e.v = "other" THEN "verdict-foreign-exception"
+            (IF e.v = "other" THEN "verdict-foreign-exception" \o lsuffix
              ELSE IF ~Over(X, n) /\ e.v = "cancelled" /\ ~X.creq[n] /\ X.cause[n] # "cancelled"
-                  THEN "verdict-cancelled-without-cancellation"     \* CancelledError out of a run nobody cancelled
+                  THEN "verdict-cancelled-without-cancellation" \o lsuffix   \* CancelledError out of a run nobody cancelled
              ELSE IF ~Over(X, n) /\ e.v = "cancelled" THEN "cancelled-run-ends-early-" \o byCause
              ELSE IF ~Over(X, n) THEN "run-exc-early"
              ELSE IF X.st[n] = "ok" THEN "verdict-raise-instead-of-return" \o Claim(e, n) \o "-spec-" \o X.cause[n]
